@@ -21,7 +21,6 @@
 #include <fcntl.h>
 #include <cerrno>
 #include <sys/prctl.h>
-#include <execinfo.h>
 
 using namespace vf;
 using ref::Q; using ref::Vec; using ref::Cell; using ref::Row; using ref::Z;
@@ -422,21 +421,11 @@ static bool some_parameter_forced_to_zero(const Data& d) {
 // main loop of PIP_Solution_Node::solve calls maybe_abandon() at every iteration.  The object is discarded afterwards.
 // (A divergence that never reaches maybe_abandon() is caught by Pool's per-step alarm.)
 static double GUARD_S = 0.05, CONFIRM_S = 1.0;
-// Where was the computation when it was abandoned?  maybe_abandon() is called from the main loop of
-// PIP_Solution_Node::solve and from the main loop of PIP_Tree_Node::compatibility_check(Matrix&) (integer feasibility of
-// a context by dual simplex + cuts): the return addresses on the stack tell which one did not end.
-static volatile int ABANDONED_IN_CC = 0;
-struct Abandoned : public PPL::Throwable {
-  void throw_me() const {
-    void* bt[48]; int n = backtrace(bt, 48);
-    typedef bool (*CC)(PPL::Matrix<PPL::PIP_Tree_Node::Row>&);
-    CC f = &PPL::PIP_Tree_Node::compatibility_check;
-    const char* lo = reinterpret_cast<const char*>(f);
-    ABANDONED_IN_CC = 0;
-    for (int i = 0; i < n; ++i) { const char* a = static_cast<const char*>(bt[i]); if (a >= lo && a < lo + 0x2b80) ABANDONED_IN_CC = 1; }
-    throw *this;
-  }
-};
+// (An earlier version recorded WHERE the computation was abandoned -- inside compatibility_check(Matrix&) or in the main
+// loop of PIP_Solution_Node::solve -- and used that location as the trigger of a known finding.  The non-terminating
+// computation was a cycle of the main loop that calls compatibility_check once per iteration, so the location depended on
+// the machine's speed: removed.  A hang is attributed by deterministic predicates over the data / the tree only.)
+struct Abandoned : public PPL::Throwable { void throw_me() const { throw *this; } };
 static Abandoned ABANDONED;
 // The timer keeps ticking after the request: a computation that does not reach maybe_abandon() within HARD_S more
 // seconds of CPU ends the worker with exit status 97; Pool re-runs that very step alone, sees the same exit, and the
@@ -483,9 +472,8 @@ static double SANDBOX_S = 0.3;
 static void on_prof_child(int) {
   if (PPL::abandon_expensive_computations != 0) { signal(SIGPROF, SIG_DFL); raise(SIGPROF); return; }
   PPL::abandon_expensive_computations = &ABANDONED;
-  // a generous window: the non-terminating loops grow their coefficients, so one iteration (one cancellation point)
-  // can take longer than a fraction of a second on a loaded machine; a short window made the location, and with it the
-  // trigger of the known compatibility_check hang, depend on timing
+  // a generous window: one iteration (one cancellation point) can take longer than a fraction of a second on a loaded
+  // machine
   struct itimerval tv; memset(&tv, 0, sizeof tv); tv.it_value.tv_sec = 4; setitimer(ITIMER_PROF, &tv, 0);
 }
 static int sandbox(const std::function<void()>& f, double cpu_s) {
@@ -502,7 +490,7 @@ static int sandbox(const std::function<void()>& f, double cpu_s) {
     try {
       PPL::abandon_expensive_computations = 0;
       struct sigaction sa; memset(&sa, 0, sizeof sa); sa.sa_handler = on_prof_child; sigaction(SIGPROF, &sa, 0);
-      try { f(); } catch (const Abandoned&) { _exit(ABANDONED_IN_CC ? 90 : 91); }
+      try { f(); } catch (const Abandoned&) { _exit(91); }
     } catch (const std::bad_alloc&) { _exit(77); } catch (...) { _exit(78); }
     _exit(0);
   }
@@ -513,9 +501,8 @@ static int sandbox(const std::function<void()>& f, double cpu_s) {
   return 1000 + WEXITSTATUS(st);
 }
 static std::string hang_trigger(const Data& d, int rc) {
-  // rc: SIGPROF = abandoned by the in-process guard (location in ABANDONED_IN_CC); 1090 / 1091 = abandoned in the sandbox
-  // child inside / outside compatibility_check; 1092 = the child had to be killed (loop without cancellation points)
-  if (rc == 1090 || (rc == SIGPROF && ABANDONED_IN_CC)) return "abandoned_inside_compatibility_check";
+  // rc: SIGPROF = abandoned by the in-process guard; 1091 = abandoned in the sandbox child; 1092 = the child had to be
+  // killed (loop without cancellation points)
   if (rc == 1092 && d.piv == 1) return "pivot_row_strategy_max_column";
   return "none";
 }
@@ -910,8 +897,9 @@ static void run_resolve_item(long long item, long long sub_start) {
         int rc1 = guarded([&]() { st1 = c->solve() == PPL::OPTIMIZED_PIP_PROBLEM ? 1 : 0; }, GUARD_S);
         if (rc1) {
           count(CNT_HANGS);
-          std::string cl = guard_clause(rc1), tr = hang_trigger(d1, rc1);
-          if (tr == "none" && !it_trig.empty()) { tr = it_trig; cl = cl == "hang" ? "incremental:hang" : "incremental:crash"; }
+          std::string cl = guard_clause(rc1), tr = "none";
+          if (!it_trig.empty()) { tr = it_trig; cl = cl == "hang" ? "incremental:hang" : "incremental:crash"; }
+          else tr = hang_trigger(d1, rc1);
           report_violation("PIP_Problem::solve", cl, tr, inj, guard_clause(rc1), "an answer");
           return; }
         if (!c->OK()) { rp.viol("PIP_Problem::solve", "invariant:OK()", it_trig.find("declaring") != std::string::npos ? it_trig : "none", "OK() false", "OK() true"); return; }
